@@ -372,7 +372,7 @@ def run(ctx):
         val_tasks.append({"kind": "dist_transform", "family": fam, "params": [fstr(p) for p in ps], "kmax": 6,
                           "budget": 40, "tol": None, "timeout": 100})
         val_meta.append((variant, fam, ps))
-    tn_tasks = [{"kind": "dist_truncnormal", "params": [fstr(p) for p in ps], "ks": list(range(0, 7)), "timeout": 120}
+    tn_tasks = [{"kind": "dist_truncnormal", "params": [fstr(p) for p in ps], "ks": list(range(0, 7)), "ts": ["1/2", "-1", "3/2"], "timeout": 120}
                 for variant, fam, ps in grid if variant == "truncnormal"][:ctx.pick(3, 12)]
     stale_tasks = []
     for fam, sym, num, subs in [("Uniform", ["p0", "3"], ["1", "3"], {"p0": "1"}), ("DistExp", ["p0"], ["2"], {"p0": "2"}),
@@ -636,6 +636,20 @@ def run(ctx):
             cov[key] = cov.get(key, 0) + 1
             continue
         for k, v in r.items():
+            if "@" in k:
+                # transform value at a point t != 0 against quadrature (validation)
+                which, tpt = k.split("@")
+                ctx.count({"tn": t["params"], "transform": k}, nontrivial=True)
+                if "error" in v:
+                    cov["truncnormal_transform_inconclusive"] = cov.get("truncnormal_transform_inconclusive", 0) + 1
+                    continue
+                cov["truncnormal_transform_points"] = cov.get("truncnormal_transform_points", 0) + 1
+                if v["abs_err"] > 1e-9 * max(1.0, abs(complex(v["true"].replace(" ", "").replace("(", "").replace(")", "")))):
+                    fnd.add(f"TruncNormal.{which}", (1, 0), f"TruncNormal.{which}:t={tpt}:params={t['params']}",
+                            {"input": {"family": "TruncNormal", "params": t["params"]}, "t": tpt, "polar_value": v["got"],
+                             "quadrature": v["true"], "abs_err": v["abs_err"]},
+                            f"TruncNormal({', '.join(t['params'])}).{which}({tpt}) = {v['got']}, quadrature of the density gives {v['true']}")
+                continue
             ctx.count({"tn": t["params"], "k": k}, nontrivial=True)
             scale = max(1.0, abs(float(v["true"])))
             tn_max = max(tn_max, v["abs_err"] / scale)
